@@ -9,26 +9,35 @@
 #include <unordered_map>
 #include <mutex>
 
+#ifdef VERIF_TSAN
+#include <atomic>
+// a std::mutex here would be seen by ThreadSanitizer (pthread calls are intercepted even from uninstrumented code) and
+// would order every library malloc/free of different threads, hiding real races; plain atomics are invisible to it
+struct AcctLock { std::atomic_flag f = ATOMIC_FLAG_INIT; void lock() { while (f.test_and_set(std::memory_order_acquire)) {} } void unlock() { f.clear(std::memory_order_release); } };
+#else
+typedef std::mutex AcctLock;
+#endif
+
 namespace own {
-static std::mutex mu;
+static AcctLock mu;
 static std::unordered_map<void *, size_t> *livep;
 static u64 n_alloc, n_free, n_free_unknown;
 static std::unordered_map<void *, size_t> &L() { if (!livep) livep = new std::unordered_map<void *, size_t>(); return *livep; }
-static void on_alloc(void *p, size_t n) { if (!p) return; std::lock_guard<std::mutex> g(mu); L()[p] = n; n_alloc++; }
+static void on_alloc(void *p, size_t n) { if (!p) return; std::lock_guard<AcctLock> g(mu); L()[p] = n; n_alloc++; }
 static void on_free(void *p) {
     if (!p) return;
-    std::lock_guard<std::mutex> g(mu);
+    std::lock_guard<AcctLock> g(mu);
     auto it = L().find(p);
     if (it == L().end()) { n_free_unknown++; return; }  // caller-owned or pre-existing memory: never an alarm
     L().erase(it); n_free++;
 }
-size_t live() { std::lock_guard<std::mutex> g(mu); return L().size(); }
-size_t live_bytes() { std::lock_guard<std::mutex> g(mu); size_t t = 0; for (auto &kv : L()) t += kv.second; return t; }
+size_t live() { std::lock_guard<AcctLock> g(mu); return L().size(); }
+size_t live_bytes() { std::lock_guard<AcctLock> g(mu); size_t t = 0; for (auto &kv : L()) t += kv.second; return t; }
 u64 allocs() { return n_alloc; }
 u64 frees() { return n_free; }
-bool owns(void *p) { std::lock_guard<std::mutex> g(mu); return L().count(p) != 0; }
-std::vector<std::pair<void *, size_t>> snapshot() { std::lock_guard<std::mutex> g(mu); return std::vector<std::pair<void *, size_t>>(L().begin(), L().end()); }
-void forget_all() { std::lock_guard<std::mutex> g(mu); L().clear(); }
+bool owns(void *p) { std::lock_guard<AcctLock> g(mu); return L().count(p) != 0; }
+std::vector<std::pair<void *, size_t>> snapshot() { std::lock_guard<AcctLock> g(mu); return std::vector<std::pair<void *, size_t>>(L().begin(), L().end()); }
+void forget_all() { std::lock_guard<AcctLock> g(mu); L().clear(); }
 }  // namespace own
 
 u64 g_syslog_calls = 0;
@@ -42,14 +51,36 @@ int __wrap_posix_memalign(void **out, size_t al, size_t n) { int r = posix_memal
 char *__wrap_strdup(const char *s) { char *p = strdup(s); own::on_alloc(p, p ? strlen(p) + 1 : 0); return p; }
 
 // --- locks
-int __wrap_pthread_rwlock_rdlock(pthread_rwlock_t *l) { if (sched_active()) return sched_lock(l, 0); return pthread_rwlock_rdlock(l); }
-int __wrap_pthread_rwlock_wrlock(pthread_rwlock_t *l) { if (sched_active()) return sched_lock(l, 1); return pthread_rwlock_wrlock(l); }
-int __wrap_pthread_rwlock_tryrdlock(pthread_rwlock_t *l) { if (sched_active()) return sched_trylock(l, 0); return pthread_rwlock_tryrdlock(l); }
-int __wrap_pthread_rwlock_trywrlock(pthread_rwlock_t *l) { if (sched_active()) return sched_trylock(l, 1); return pthread_rwlock_trywrlock(l); }
-int __wrap_pthread_rwlock_unlock(pthread_rwlock_t *l) { if (sched_active()) return sched_unlock(l); return pthread_rwlock_unlock(l); }
-int __wrap_pthread_mutex_lock(pthread_mutex_t *l) { if (sched_active()) return sched_lock(l, 1); return pthread_mutex_lock(l); }
-int __wrap_pthread_mutex_trylock(pthread_mutex_t *l) { if (sched_active()) return sched_trylock(l, 1); return pthread_mutex_trylock(l); }
-int __wrap_pthread_mutex_unlock(pthread_mutex_t *l) { if (sched_active()) return sched_unlock(l); return pthread_mutex_unlock(l); }
+// Under the scheduler the simulator is the lock.  In the tsan flavour the granted lock is additionally taken for real
+// (try-variants: it cannot block, the simulator already guarantees exclusion) so that ThreadSanitizer records the
+// library's lock edges.
+#ifdef VERIF_TSAN
+static thread_local std::vector<void *> t_real_held;
+static void real_after_grant(void *l, int excl, int is_mutex) {
+    int rc = is_mutex ? pthread_mutex_trylock((pthread_mutex_t *) l)
+                      : (excl ? pthread_rwlock_trywrlock((pthread_rwlock_t *) l) : pthread_rwlock_tryrdlock((pthread_rwlock_t *) l));
+    if (rc == 0) t_real_held.push_back(l);
+}
+static void real_before_release(void *l, int is_mutex) {
+    for (size_t i = t_real_held.size(); i-- > 0;)
+        if (t_real_held[i] == l) {
+            t_real_held.erase(t_real_held.begin() + i);
+            if (is_mutex) pthread_mutex_unlock((pthread_mutex_t *) l); else pthread_rwlock_unlock((pthread_rwlock_t *) l);
+            return;
+        }
+}
+#else
+static inline void real_after_grant(void *, int, int) {}
+static inline void real_before_release(void *, int) {}
+#endif
+int __wrap_pthread_rwlock_rdlock(pthread_rwlock_t *l) { if (sched_active()) { int r = sched_lock(l, 0); real_after_grant(l, 0, 0); return r; } return pthread_rwlock_rdlock(l); }
+int __wrap_pthread_rwlock_wrlock(pthread_rwlock_t *l) { if (sched_active()) { int r = sched_lock(l, 1); real_after_grant(l, 1, 0); return r; } return pthread_rwlock_wrlock(l); }
+int __wrap_pthread_rwlock_tryrdlock(pthread_rwlock_t *l) { if (sched_active()) { int r = sched_trylock(l, 0); if (!r) real_after_grant(l, 0, 0); return r; } return pthread_rwlock_tryrdlock(l); }
+int __wrap_pthread_rwlock_trywrlock(pthread_rwlock_t *l) { if (sched_active()) { int r = sched_trylock(l, 1); if (!r) real_after_grant(l, 1, 0); return r; } return pthread_rwlock_trywrlock(l); }
+int __wrap_pthread_rwlock_unlock(pthread_rwlock_t *l) { if (sched_active()) { real_before_release(l, 0); return sched_unlock(l); } return pthread_rwlock_unlock(l); }
+int __wrap_pthread_mutex_lock(pthread_mutex_t *l) { if (sched_active()) { int r = sched_lock(l, 1); real_after_grant(l, 1, 1); return r; } return pthread_mutex_lock(l); }
+int __wrap_pthread_mutex_trylock(pthread_mutex_t *l) { if (sched_active()) { int r = sched_trylock(l, 1); if (!r) real_after_grant(l, 1, 1); return r; } return pthread_mutex_trylock(l); }
+int __wrap_pthread_mutex_unlock(pthread_mutex_t *l) { if (sched_active()) { real_before_release(l, 1); return sched_unlock(l); } return pthread_mutex_unlock(l); }
 
 // --- syslog (defined in the executable: takes precedence over libc for calls from the .so's)
 void syslog(int, const char *, ...) { g_syslog_calls++; }
